@@ -498,6 +498,58 @@ class Trial:
         self.view = probe
         return self.dump(probe)
 
+    # -- the user's environment --------------------------------------------
+    USER_DIRS = {"HOME": "home", "XDG_CONFIG_HOME": "home/.config", "XDG_CACHE_HOME": "home/.cache",
+                 "XDG_DATA_HOME": "home/.local/share", "TMPDIR": "tmp"}
+
+    def enter_user_environment(self):
+        """HOME, the XDG directories and TMPDIR of the simulated user live inside
+        the run directory: they persist from command to command of this history
+        (as they would for a real user), are invisible to other histories, and are
+        snapshotted around reference runs, which must not leave anything there."""
+        self.saved_env = {k: os.environ.get(k) for k in self.USER_DIRS}
+        for var, rel in self.USER_DIRS.items():
+            path = os.path.join(self.dir, rel)
+            os.makedirs(path, exist_ok=True)
+            os.environ[var] = path
+        import tempfile  # pylint: disable=import-outside-toplevel
+        tempfile.tempdir = None
+
+    def leave_user_environment(self):
+        for var, value in getattr(self, "saved_env", {}).items():
+            if value is None:
+                os.environ.pop(var, None)
+            else:
+                os.environ[var] = value
+        import tempfile  # pylint: disable=import-outside-toplevel
+        tempfile.tempdir = None
+
+    def _user_state_paths(self):
+        return [os.path.join(self.dir, "home"), os.path.join(self.dir, "tmp")] + (
+            [os.path.join(self.dir, "cwd")] if self.path_style != "relative" else [])
+
+    def snapshot_user_state(self):
+        """Copy of the user's directories, or None when they are all empty (the usual case)."""
+        if not any(files for p in self._user_state_paths() for _r, _d, files in os.walk(p)):
+            return None
+        snap = os.path.join(self.dir, "userstate.snapshot")
+        shutil.rmtree(snap, ignore_errors=True)
+        for i, p in enumerate(self._user_state_paths()):
+            shutil.copytree(p, os.path.join(snap, str(i)), symlinks=True)
+        return snap
+
+    def restore_user_state(self, snap):
+        for i, p in enumerate(self._user_state_paths()):
+            shutil.rmtree(p, ignore_errors=True)
+            if snap is not None:
+                shutil.copytree(os.path.join(snap, str(i)), p, symlinks=True)
+            else:
+                os.makedirs(p, exist_ok=True)
+        for rel in self.USER_DIRS.values():
+            os.makedirs(os.path.join(self.dir, rel), exist_ok=True)
+        if self.path_style != "relative":
+            os.chdir(os.path.join(self.dir, "cwd"))
+
     def check_twin(self, op, argv, twin_ex, post, started_hot):
         """Verdicts that concern the fault-free run alone."""
         t_out = twin_ex.outcome
@@ -571,6 +623,11 @@ class Trial:
         if self.path_style == "relative":
             self.knobs["_relative_paths"] = True
             os.chdir(self.dir)
+        else:
+            work = os.path.join(self.dir, "cwd")
+            os.makedirs(work, exist_ok=True)
+            os.chdir(work)                      # whatever a command drops into "the current directory"
+        self.enter_user_environment()
         if self.fault_rate is None:
             self.fault_rate = rng.choice([0.0, 0.3, 0.5, 0.5, 0.7])
         if self.layers is None:
@@ -604,8 +661,11 @@ class Trial:
     def run_twin(self, argv):
         # hot (or inert) journal included: the twin starts from exactly the same files
         _copy_with_sidecars(self.db, self.twin)
+        snap = self.snapshot_user_state() if hasattr(self, "saved_env") else None
         ex = execute(self.twin, argv, self.knobs, None, self.dir, record=True, count_sys=True)
         post = self.dump(self.twin)
+        if hasattr(self, "saved_env"):
+            self.restore_user_state(snap)       # the reference run leaves nothing in the user's directories
         return ex, post
 
     # -- fault plan ---------------------------------------------------------
@@ -891,6 +951,9 @@ class Trial:
         key = tuple((s, tuple(self.acked[s])) for s in CANON_ORDER if s in self.acked)
         if key not in self.canon_cache:
             _copy_with_sidecars(self.base, self.canon_db)
+            snap = self.snapshot_user_state() if hasattr(self, "saved_env") else None
+            if hasattr(self, "saved_env"):
+                self.restore_user_state(None)   # the canonical history is a new user's
             failed = None
             for s, argv in key:
                 ex = execute(self.canon_db, list(argv), dict(self.knobs, cache_pages=None), None, self.dir)
@@ -898,6 +961,8 @@ class Trial:
                     failed = (s, ex.outcome.as_dict())
                     break
             self.canon_cache[key] = (self.dump(self.canon_db), failed)
+            if hasattr(self, "saved_env"):
+                self.restore_user_state(snap)
             self.stats["canonical_states_built"] += 1
         canon, failed = self.canon_cache[key]
         if failed is not None:
@@ -1228,6 +1293,7 @@ def run_trial(seed, directory, other_process_seed=None, **kw):
         return trial, v
     finally:
         os.chdir(home)
+        trial.leave_user_environment()
         reap_zombies()
     return trial, None
 
@@ -1240,11 +1306,16 @@ def replay_ops(rep, directory):
     try:
         if trial.knobs.get("_relative_paths"):
             os.chdir(trial.dir)
+        else:
+            os.makedirs(os.path.join(trial.dir, "cwd"), exist_ok=True)
+            os.chdir(os.path.join(trial.dir, "cwd"))
+        trial.enter_user_environment()
         trial.run_ops(rep["ops"], liveness=bool(rep.get("liveness")))
     except Violation as v:
         return trial, v
     finally:
         os.chdir(home)
+        trial.leave_user_environment()
     return trial, None
 
 
@@ -1435,10 +1506,16 @@ def history_job(job):
 
 def sweep_job(job):
     home = os.getcwd()
+    saved = {k: os.environ.get(k) for k in Trial.USER_DIRS}
     try:
         return _sweep_job(job)
     finally:
         os.chdir(home)
+        for var, value in saved.items():
+            if value is None:
+                os.environ.pop(var, None)
+            else:
+                os.environ[var] = value
         reap_zombies()
 
 
